@@ -13,6 +13,7 @@ import (
 	"path/filepath"
 	"sort"
 	"strings"
+	"sync/atomic"
 	"time"
 )
 
@@ -125,7 +126,47 @@ func fatal(format string, args ...interface{}) {
 var crashLogPath string
 var crashHistory []string
 
+// watchdog: a library call that does not come back (an endless walk over a cyclic parent chain cannot be interrupted from
+// outside the goroutine) ends the process promptly with the history in the crash log, instead of hanging until the
+// orchestrator's time limit.
+var opDeadline int64 // unix nanoseconds; 0 = no library call in progress
+var opName atomic.Value
+
+func init() {
+	go func() {
+		for {
+			time.Sleep(time.Second)
+			if d := atomic.LoadInt64(&opDeadline); d != 0 && time.Now().UnixNano() > d {
+				fmt.Fprintf(os.Stderr, "harness: a library call did not return within %v (endless loop?): %v\n", opLimit, opName.Load())
+				os.Exit(5)
+			}
+		}
+	}()
+}
+
+const opLimit = 60 * time.Second
+
+var deadlineStack []int64 // deadlines of the enclosing guarded sections (one goroutine drives the library)
+
+// opDone ends the innermost guarded section and puts the enclosing one's deadline back.
+func opDone() {
+	prev := int64(0)
+	if n := len(deadlineStack); n > 0 {
+		prev = deadlineStack[n-1]
+		deadlineStack = deadlineStack[:n-1]
+	}
+	atomic.StoreInt64(&opDeadline, prev)
+}
+
+// watch starts a guarded section: the process ends if opDone is not reached within opLimit.
+func watch(what string) {
+	deadlineStack = append(deadlineStack, atomic.LoadInt64(&opDeadline))
+	opName.Store(what)
+	atomic.StoreInt64(&opDeadline, time.Now().Add(opLimit).UnixNano())
+}
+
 func noteOp(f []string) {
+	watch(strings.Join(f, " "))
 	if crashLogPath == "" {
 		return
 	}
